@@ -64,3 +64,27 @@ j["loops"] = PB_LOOPS
 j["dfcc"] = {"apply_loop_contracts": True}   # nested loop contracts: the non-DFCC pass crashes on them
 j["pre_unwind"] = [{"function": "_crypt_PBKDF2_SHA256", "anchor": "for (k = 0; k < 32; k++)", "n": 32}]
 JOBS.append(j)
+
+SHA256_MAXLEN = 200
+def _sha256(unit):
+    j = {"name": "sha256_%s" % unit, "props": ["C16"],
+         "functions": {"init": ["SHA256_Init"], "update": ["_SHA256_Update"], "final": ["_SHA256_Final", "SHA256_Pad", "cpu_to_be32_vect", "cpu_to_be64"]}[unit],
+         "harness": "harness/digest_sha256.c", "defs": ["U_%s=1" % unit, "MAXLEN=%d" % SHA256_MAXLEN],
+         "verif_src": ["models/strings.c"], "replace_calls": ["SHA256_Transform:transform_stub"],
+         "unwind": 66, "mem_gb": 4, "timeout": 1200, "no_native": True,
+         "assumptions": ["A-det: the SHA-256 compression function is a function of (chaining value, block) - modelled by an arbitrary-but-fixed table of chaining values indexed by block number"],
+         "bound": "message length <= %d bytes; the bulk loop of Update is closed by a loop contract, so the number of blocks per call is not what the bound limits - it bounds the ghost padded-message object" % SHA256_MAXLEN}
+    if unit in ("update", "final"):
+        j["cases"] = [("fill%d" % k, "(off & 63) == %d" % k) for k in range(64)]
+        j["cases_quick"] = ["fill0", "fill1", "fill55", "fill56", "fill63"]
+        j["cases_quick_note"] = ("quick tier: buffer fill levels 0, 1, 55, 56 (the padding boundary) and 63; "
+                                 "thorough tier: all 64 fill levels (exhaustive)")
+    if unit == "update":
+        st = " && ".join("ctx->state[%d] == G_STATE[G_NBLK][%d]" % (k, k) for k in range(8))
+        j["loops"] = [{"function": "_SHA256_Update", "anchor": "while (len",
+                       "invariant": "G_NBLK <= %d && len <= g_end" % (SHA256_MAXLEN // 64) + " && 64 * G_NBLK + len == g_end && g_end <= G_LEN && src == G_MSG + 64 * G_NBLK && " + st,
+                       "assigns": "src, len, G_NBLK, " + ", ".join("ctx->state[%d]" % k for k in range(8)),
+                       "decreases": "len"}]
+    return j
+
+JOBS += [_sha256(u) for u in ("init", "update", "final")]
